@@ -15,6 +15,8 @@ Definition zlen (op : xop) : bool :=
   | XSliceCopyFrom _ len t _ | XSliceCopyTo _ len t _ => (len =? 0) && negb (t =? 0)
   | XCopyToVS _ len => len =? 0                                 (* slice-to-slice copy from an empty slice *)
   | XAtomicLoad _ _ | XArrStore _ _ _ _ | XArrLoad _ _ _ _ => false
+  (* the descriptor-stream forms (suite C17xen) are not among C18's entry points *)
+  | XReadFromFd _ _ _ | XReadExactFromFd _ _ | XWriteToFd _ _ | XWriteAllToFd _ _ => false
   end.
 
 Lemma pmul0r m s a : pmul m s a 0 = Val 0.
@@ -81,7 +83,7 @@ Qed.
 Lemma zlen_quiet m o g op : zlen op = true -> quiet (run_op m o g op).
 Proof.
   intros Z. destruct op as [off len|off len|off len w|off t|off t|off t n i|off t n i|off t n k|off t n k|off t|off len
-                           |off count srclen|off count|off len t k|off len t k]; cbn [zlen] in Z; try discriminate.
+                           |off count srclen|off count|off len t k|off len t k|off count srclen|off count|off count|off count]; cbn [zlen] in Z; try discriminate.
   - (* write *) apply N.eqb_eq in Z; subst. unfold run_op. cbn [op_plan]. rewrite N.eqb_refl. split; [reflexivity|left; reflexivity].
   - (* read *) apply N.eqb_eq in Z; subst. unfold run_op. cbn [op_plan]. rewrite N.eqb_refl. split; [reflexivity|left; reflexivity].
   - (* slice guard *) apply N.eqb_eq in Z; subst. unfold run_op. cbn [op_plan].
@@ -112,7 +114,8 @@ Definition zoff (op : xop) : N :=
   match op with
   | XWrite a _ | XRead a _ | XSliceGuard a _ _ | XRefStore a _ | XRefLoad a _ | XArrStore a _ _ _ | XArrLoad a _ _ _
   | XArrCopyFrom a _ _ _ | XArrCopyTo a _ _ _ | XAtomicLoad a _ | XCopyToVS a _ | XReadFrom a _ _ | XWriteTo a _
-  | XSliceCopyFrom a _ _ _ | XSliceCopyTo a _ _ _ => a end.
+  | XSliceCopyFrom a _ _ _ | XSliceCopyTo a _ _ _
+  | XReadFromFd a _ _ | XReadExactFromFd a _ | XWriteToFd a _ | XWriteAllToFd a _ => a end.
 Definition zcount (op : xop) : N :=
   match op with XArrCopyFrom _ _ n _ | XArrCopyTo _ _ n _ => n | _ => 0 end.
 
@@ -125,7 +128,7 @@ Proof.
   { intros off L'. unfold end_offset, checked_add. destruct (N.ltb_spec (off + 0) W64); [|lia].
     destruct (N.ltb_spec (xr_size g) (off + 0)); [lia|reflexivity]. }
   destruct op as [off len|off len|off len w|off t|off t|off t n i|off t n i|off t n k|off t n k|off t|off len
-                 |off count srclen|off count|off len t k|off len t k]; cbn [zlen zoff zcount] in *; try discriminate.
+                 |off count srclen|off count|off len t k|off len t k|off count srclen|off count|off count|off count]; cbn [zlen zoff zcount] in *; try discriminate.
   - apply N.eqb_eq in Z; subst. unfold run_op. cbn [op_plan]. rewrite N.eqb_refl. reflexivity.
   - apply N.eqb_eq in Z; subst. unfold run_op. cbn [op_plan]. rewrite N.eqb_refl. reflexivity.
   - apply N.eqb_eq in Z; subst. unfold run_op. cbn [op_plan]. rewrite (EO off L), guarded0. reflexivity.
